@@ -370,6 +370,58 @@ class Model:
             return False
 
 
+def partial_match(model: Model, pred: Pred, stdin: bytes, exit_class: str, stdout: bytes, after: dict[str, bytes]) -> bool:
+    """Acceptance of a failing run over several inputs: non-zero exit; every input individually
+    either untouched or holding exactly the result it would get alone; nothing else changes."""
+    pt = pred.partial
+    assert pt is not None
+    if exit_class != "nonzero":
+        return False
+    M0: dict[str, bytes] = pt["M0"]
+    files = [f for f in pt["files"]]
+    alone: dict[str, bytes | None] = {}
+    for f in files:
+        if f == "-" or f not in M0:
+            continue
+        try:
+            alone[f] = model.fmt_file(M0[f], pt["o"])
+        except Exception:  # noqa: BLE001
+            alone[f] = None
+    if pt["mode"] == "stdout":
+        if after != M0:
+            return False
+        pieces: list[bytes] = []
+        for f in files:
+            if f == "-":
+                try:
+                    pieces.append(model.fmt_stdin(stdin, pt["o"]).encode("utf-8", "surrogateescape"))
+                except Exception:  # noqa: BLE001
+                    pieces.append(b"")
+            else:
+                pieces.append(alone.get(f) or b"")
+        acc = b""
+        ok_outs = {acc}
+        for pc in pieces:
+            acc += pc
+            ok_outs.add(acc)
+        return stdout in ok_outs
+    if stdout:
+        return False
+    for path in set(M0) | set(after):
+        cur = after.get(path)
+        if path in alone:
+            if cur != M0[path] and not (alone[path] is not None and cur == alone[path]):
+                return False
+            if cur != M0[path] and not pt["nobackup"] and after.get(path + ".orig") != M0[path]:
+                return False
+        elif path.endswith(".orig") and path[: -len(".orig")] in alone:
+            if cur != M0.get(path) and cur != M0[path[: -len(".orig")]]:
+                return False
+        elif cur != M0.get(path):
+            return False
+    return True
+
+
 def eff_opts(inv: dict[str, Any], auto: bool) -> dict[str, Any]:
     o = dict(inv["opts"])
     if auto:
@@ -404,6 +456,10 @@ class Pred:
         self.no_write = False
         self.alt: "Pred | None" = None  # a second acceptable outcome (don't-care forms)
         self.formatted: list[tuple[bytes, dict[str, Any]]] = []
+        # a run over several inputs in which one input fails: which of the other inputs have
+        # been processed when the run stops is not fixed by the property (one by one, all-or-
+        # nothing in two phases and keep-going are all legal); see partial_match()
+        self.partial: dict[str, Any] | None = None
 
 
 def predict(model: Model, inv: dict[str, Any], M: dict[str, bytes]) -> Pred:
@@ -430,6 +486,8 @@ def predict(model: Model, inv: dict[str, Any], M: dict[str, bytes]) -> Pred:
                 p.formatted.append((p.M[f], o))
             except Exception:  # noqa: BLE001
                 p.exit = "nonzero"
+                if len(files) > 1:
+                    p.partial = {"files": list(files), "o": o, "mode": mode, "nobackup": nobackup, "M0": dict(M)}
                 return
             if mode == "stdout":
                 out.extend(res)
@@ -735,6 +793,9 @@ def _run_case(case: dict[str, Any], scratch: str, want_trace: bool) -> dict[str,
         what = matches(pred)
         if what is not None and pred.alt is not None and matches(pred.alt) is None:
             what = None
+        if what is not None and pred.partial is not None and partial_match(model, pred, stdin, res.exit_class(), res.stdout, after) and dirs_now == dirs_before:
+            what = None
+            counters["partial_failure_runs_accepted_in_other_legal_order"] = counters.get("partial_failure_runs_accepted_in_other_legal_order", 0) + 1
         if pred.no_write:
             counters["usage_errors_checked"] += 1
         if disc or pred.no_write:
@@ -776,7 +837,8 @@ def _run_case(case: dict[str, Any], scratch: str, want_trace: bool) -> dict[str,
             res2 = simproc.run_process(ip2, make_fn(inv2), stdin, cwd=root2, uid_seed=inv.get("uid_seed", 0))
             after2 = tree_files(root2)
             counters["twin_runs"] += 1
-            if after2 != after or res2.stdout != res.stdout or res2.exit != res.exit or norm_oplog(ip2.log) != norm_oplog(ip.log):
+            # (outcome equivalence; the sequence of file-system operations is the implementation's business)
+            if after2 != after or res2.stdout != res.stdout or res2.exit != res.exit:
                 violations.append({
                     "fingerprint": "C15/auto/twin-mismatch",
                     "detail": {"invocation": idx, "argv": inv["argv"], "twin_argv": inv2["argv"], "tree_equal": after2 == after, "stdout_equal": res2.stdout == res.stdout, "exits": [res.exit, res2.exit], "oplog_equal": norm_oplog(ip2.log) == norm_oplog(ip.log)},
